@@ -59,6 +59,7 @@ rvname(int rv)
 {
 	switch (rv) {
 	case 0: return "ok";
+	case -1: return "blocked";
 	case NNG_EAGAIN: return "eagain";
 	case NNG_ETIMEDOUT: return "etimedout";
 	case NNG_ECANCELED: return "ecanceled";
@@ -669,7 +670,31 @@ main(int argc, char **argv)
 					settle();
 					o("\"out\":{\"rv\":\"%s\",\"done\":", rvname(rv));
 				} else {
-					rv = c > 0 ? nng_ctx_recvmsg(ctxs[c], &m, NNG_FLAG_NONBLOCK) : nng_recvmsg(sut, &m, NNG_FLAG_NONBLOCK);
+					if (!strcmp(proto_name, "surveyor")) {
+						// the same operation in its aio form (zero timeout), so that a call that would block is
+						// reported instead of hanging the driver under the virtual clock
+						nng_aio *na;
+						nng_aio_alloc(&na, NULL, NULL);
+						nng_aio_set_timeout(na, NNG_DURATION_ZERO);
+						c > 0 ? nng_ctx_recv(ctxs[c], na) : nng_socket_recv(sut, na);
+						settle();
+						if (nng_aio_busy(na)) {
+							rv = -1;
+							nng_aio_cancel(na);
+							settle();
+							nng_aio_wait(na);
+							if (nng_aio_result(na) == 0) {
+								nng_msg_free(nng_aio_get_msg(na));
+							}
+						} else {
+							rv = nng_aio_result(na);
+							rv = rv == NNG_ETIMEDOUT ? NNG_EAGAIN : rv;
+							m  = rv == 0 ? nng_aio_get_msg(na) : NULL;
+						}
+						nng_aio_free(na);
+					} else {
+						rv = c > 0 ? nng_ctx_recvmsg(ctxs[c], &m, NNG_FLAG_NONBLOCK) : nng_recvmsg(sut, &m, NNG_FLAG_NONBLOCK);
+					}
 					settle();
 					o("\"out\":{\"rv\":\"%s\"", rvname(rv));
 					if (rv == 0) {
